@@ -186,6 +186,46 @@ def write_buffer_rule(ck, fb):
     ck.floor("write_buffer_destinations", n, 2)
 
 
+def ascii_text_rules(ck, fb):
+    """the text form of a value must survive white-space separated, line-oriented reading"""
+    ck.rule("C06.text", "ASCII: for every value type the format registers, the writer's text form is re-read by the reader's extraction.  (a) character types: the generic helper writes the raw character with operator<<(char) and reads with operator>>(char&), which skips white space - a value of 9, 10, 13 or 32 is lost and shifts everything after it; (b) floating types: operator<< prints inf/nan, which operator>>(double&) does not parse; (c) property names are written verbatim between quote marks into a line-oriented format; (d) isTetrahedralMesh/isHexahedralMesh decide from the cell valences alone and never read the Faces section")
+    helpers = [f for f in fb.fns.values() if f.name in ("deserialize_helper", "serialize_helper") and f.has_cfg and f.d.get("inst") and "/FileManager/" in f.file]
+    ck.floor("ascii_helper_instantiations", len(helpers), 20)
+
+    def elem_t(f):
+        return f.d["params"][1]["t"].replace("const ", "").replace(" &", "").strip()
+    des = {elem_t(f): f for f in helpers if f.name == "deserialize_helper" and len(f.d["params"]) >= 2}
+    ser = {elem_t(f): f for f in helpers if f.name == "serialize_helper" and len(f.d["params"]) >= 2}
+    for t, tag in (("char", "char"), ("unsigned char", "uchar")):  # the two character types in the typeName list
+        if t in des and t in ser:
+            raw_w = any(x.get("pn", "") == "std::operator<<" for b, i, x in ser[t].nodes(("call",)))
+            fmt_r = any(x.get("pn", "") == "std::operator>>" for b, i, x in des[t].nodes(("call",)))
+            (ck.ok if not (raw_w and fmt_r) else lambda r_, w_, t_: ck.violate(r_, w_, t_, "C06.text:%s" % tag))("C06.text", des[t].where, "ASCII %s values: written and re-read symmetrically (raw character out: %s, white-space skipping extraction in: %s)" % (t, raw_w, fmt_r))
+    nf = [t for t in ("float", "double", "long double") if t in des and any(x.get("pn", "").endswith("basic_istream::operator>>") for b, i, x in des[t].nodes(("call",))) and t in ser and any(x.get("pn", "").endswith("basic_ostream::operator<<") for b, i, x in ser[t].nodes(("call",)))]
+    dedicated = [f for f in fb.fns.values() if f.name == "deserialize" and f.has_cfg and "/FileManager/" in f.file and len(f.d["params"]) == 2 and f.d["params"][1]["t"] in ("double &", "float &")  and not f.d.get("inst")]
+    (ck.ok if (not nf or dedicated) else lambda r_, w_, t_: ck.violate(r_, w_, t_, "C06.text:nonfinite"))("C06.text", des[nf[0]].where if nf else "FileManager", "ASCII floating values: operator<< / operator>> are inverse on finite values only (types through the generic helper: %s; dedicated reader: %s)" % (nf, bool(dedicated)))
+    # (c) names
+    wr = [f for f in fb.fns.values() if f.has_cfg and f.cls and f.cls.endswith("IO::FileManager") and f.name in ("writeProps",) ]
+    esc = False
+    namew = 0
+    for f in wr:
+        for b, i, x in f.nodes(("call",)):
+            if x.get("pn", "").split("::")[-1] in ("escape", "quote", "quoted"):
+                esc = True
+            if x.get("pn", "").split("::")[-1] == "name" and b in f.reach():
+                namew += 1
+    if namew:
+        (ck.ok if esc else lambda r_, w_, t_: ck.violate(r_, w_, t_, "C06.text:name_linebreak"))("C06.text", wr[0].where, "ASCII property names are escaped before they are written into the line-oriented header (%d name() uses in writeProps, escaping call: %s)" % (namew, esc))
+    # (d) detection
+    for nm in ("isTetrahedralMesh", "isHexahedralMesh"):
+        fs = [f for f in fb.fns.values() if f.name == nm and f.has_cfg and "/FileManager/" in f.file]
+        if not fs:
+            raise AnalysisBroken("anchor vanished: FileManager::" + nm)
+        lits = [x.get("v") for b, i, x in fs[0].nodes(("lit",)) if isinstance(x.get("v"), str)]
+        ok = any(l.lower().startswith("faces") for l in lits)
+        (ck.ok if ok else lambda r_, w_, t_: ck.violate(r_, w_, t_, "C06.text:detect:%s" % nm))("C06.text", fs[0].where, "%s also reads the Faces section (section keywords it looks for: %s)" % (nm, [l for l in lits if l[:1].isupper() and " " not in l][:3]))
+
+
 def run(ck, fb, fbd):
     codec_symmetry(ck, fb)
     ksy_agreement(ck, fb)
@@ -199,6 +239,7 @@ def run(ck, fb, fbd):
     from . import readers
     buffer_rule(ck, fb)
     quoted_name_rule(ck, fb)
+    ascii_text_rules(ck, fb)
     write_buffer_rule(ck, fb)
     bool_codec_rule(ck, fb)
     empty_span_rule(ck, fb)
